@@ -9,7 +9,7 @@ from ..models.binref import BLANK_HASH, RefBin, bits_of
 
 ID = "C12"
 LEVEL = "exploration"
-RUNS = {"quick": 16000, "thorough": 300000}
+RUNS = {"quick": 10000, "thorough": 200000}
 RULE = (
     "each run: seeded key pool (fixed 1/2/4/32-byte or variable-length keys with one-bit neighbours, shared long "
     "prefixes, keys that are prefixes/extensions of each other) and a history of 8-60 events: set / delete / set-empty "
@@ -148,7 +148,7 @@ class World(BWorld):
         t = self.trie
         root_before = t.root_hash
         conflict = conflicts(self.model, k)
-        if not conflict and k not in self.model:
+        if not conflict and k not in self.model and len(self.model) <= 100:
             self._classify_insert(k)
         status, res = self.call(cmd, (lambda: t.__setitem__(k, v)) if cmd.get("via") == "d" else (lambda: t.set(k, v)))
         self.changed = True
@@ -170,7 +170,7 @@ class World(BWorld):
         k = unhx(cmd["k"])
         root_before = self.trie.root_hash
         present = k in self.model
-        if present:
+        if present and len(self.model) <= 100:
             self._classify_delete(k)
         status, res = self.call(cmd, fn)
         self.changed = True
@@ -276,7 +276,7 @@ class World(BWorld):
             self.st.fault("crash-reopen")
             return "ok"
         root = self.order[j % len(self.order)]
-        if cmd.get("lost"):
+        if cmd.get("lost") and root in self.snaps:
             # lost writes: the store falls back to what it held when `root` was current;
             # roots that are no longer backed by the store are forgotten by the client too
             self.db.restore(self.snaps[root])
@@ -290,7 +290,7 @@ class World(BWorld):
                     self.snaps.pop(r, None)
             self.order = keep
             self.st.fault("store-lost-writes")
-        if cmd.get("assign") or cmd.get("lost"):
+        if cmd.get("assign") or (cmd.get("lost") and root in self.snaps):
             # the live handle is rolled back by assigning its public root_hash attribute
             self.trie.root_hash = fresh(root)
             self.st.probe("rolled-back-by-root-hash-assignment")
@@ -304,6 +304,10 @@ class World(BWorld):
 
     # -- after every event ---------------------------------------------------------
     def after(self, cmd, out):
+        if self.changed and len(self.model) > 100 and self.ev % 25 and cmd["op"] == "set":
+            # a big model (bit comb being loaded): the full comparison every 25th event
+            self.register_cheap()
+            return
         if self.changed:
             r = self.ref()
             if self.trie.root_hash != r.root_hash:
@@ -313,11 +317,24 @@ class World(BWorld):
                 self.viol("old-root-wrong-contents", "one root hash stands for two different contents")
             self.register()
 
+    def register_cheap(self):
+        self._ref = None
+        self.register()
+
     def finish(self):
-        for j, root in enumerate(self.order):
+        if self.model and self.trie.root_hash != self.ref().root_hash:
+            self.viol("root-not-canonical", f"final root is {self.trie.root_hash.hex()}, the canonical root of the contents is {self.ref().root_hash.hex()}")
+        order = self.order
+        if len(order) > 80:
+            # a long history (bit comb being loaded): a spread sample of earlier roots
+            step = len(order) // 12
+            order = order[::step] + order[-3:]
+        for j, root in enumerate(order):
             t = BinaryTrie(self.db, fresh(root))
             contents = self.registry[root]
             keys = sorted(contents) + self.probes[(j * 3) % max(1, len(self.probes)) :][:4]
+            if len(keys) > 60:
+                keys = keys[:: len(keys) // 40]
             for k in keys:
                 try:
                     got = t.get(k)
@@ -344,7 +361,7 @@ def add_fault(rng, cmd):
     r = rng.random()
     c = dict(cmd)
     if r < 0.5:
-        c["fw"] = [rng.randint(1, 6), rng.randrange(2), rng.choice("EKO")]
+        c["fw"] = [rng.randint(1, 6), rng.randrange(2), rng.choice("EKOB")]
     elif r < 0.85:
         c["whi"] = [rng.randrange(1000) for _ in range(rng.randint(1, 3))]
     else:
@@ -358,8 +375,8 @@ def generate(rng):
     probes = probe_keys(rng, pool)
     g = BHistory(rng, pool, values, probes)
     p_fault = rng.choice([0.0, 0.1, 0.2, 0.3])
-    cmds = []
-    for _ in range(rng.choice(deep([8, 12, 20, 30, 45, 60], [8, 16, 30, 60, 100, 160]))):
+    cmds = g.preload()
+    for _ in range(rng.choice(deep([8, 12, 20, 30, 45, 60], [8, 16, 30, 60, 100, 160])) if not cmds else 12):
         m = g.mutation()
         if m["op"] != "reopen" and rng.random() < p_fault:
             cmds.append(add_fault(rng, m))
@@ -373,7 +390,7 @@ def generate(rng):
                 lk = add_fault(rng, lk)
                 lk.pop("fw", None)
             cmds.append(lk)
-    return {"prop": ID, "cfg": {"probe": [hx(k) for k in probes[:40]]}, "cmds": cmds}
+    return {"prop": ID, "cfg": {"probe": [hx(k) for k in probes[:40]], "store": rng.choice(["min", "min", "dict"])}, "cmds": cmds}
 
 
 def explore(rng, st):
